@@ -833,7 +833,11 @@ class History:
                 in_mem = h["job"].statepoint()
             except Exception:
                 in_mem = None
-            if in_mem is not None and oracle.canon(in_mem) == oracle.canon(quirk_sp) and outcome in ("ok", "DestinationExistsError"):
+            qid = oracle.job_id(quirk_sp)
+            # (since the repair F-REFUSEDREKEY a refused change no longer stays in memory: a refusal is recognised as
+            # the dependency's doing when the state point it actually built collides with an existing job)
+            refused_by_quirk = outcome == "DestinationExistsError" and exists and qid != old_id and (qid in m or self.planted[p].get(qid) == "doc_only")
+            if in_mem is not None and outcome in ("ok", "DestinationExistsError") and (oracle.canon(in_mem) == oracle.canon(quirk_sp) or refused_by_quirk):
                 self.mm(
                     "sp_reset_type_only",
                     f"{op['op']} {old_sp!r} -> {new_sp!r}: value-type changes were dropped, the job now has {quirk_sp!r}",
